@@ -341,7 +341,7 @@ fn policy(v: &Value) -> Value {
     let ok = matches!(&got, Ok((t, p)) if *t == table && *p == expp);
     verdict(ok, match &got { Ok((t, p)) => json!({"type": format!("{:?}", t), "promote": [p.0, p.1]}), Err(m) => json!({"panicked": m}) },
             json!({"type": format!("{:?}", table), "promote": [expp.0, expp.1]}),
-            &json!({"op": format!("{:?}", op), "l": format!("{:?}", l), "r": format!("{:?}", r), "k": format!("{:?}", k), "idx": v}), "numeric result type table")
+            &{ let mut a = v.clone(); a["names"] = json!({"op": format!("{:?}", op), "l": format!("{:?}", l), "r": format!("{:?}", r), "k": format!("{:?}", k)}); a }, "numeric result type table")
 }
 
 // ------------------------------------------------------------------------------------------------
